@@ -119,7 +119,7 @@ def one(args):
 def main():
     tier = sys.argv[sys.argv.index('--tier') + 1] if '--tier' in sys.argv else 'quick'
     chk = vlib.Check(PROP, tier)
-    n = int(os.environ.get('VERIF_N', '0')) or (600 if tier == 'quick' else 15000)
+    n = int(os.environ.get('VERIF_N', '0')) or (1500 if tier == 'quick' else 60000)
     try:
         BINS['dbg'] = vlib.build('dbg')['lyrun']
         BINS['rel'] = vlib.build('rel')['lyrun']
